@@ -126,6 +126,11 @@ def latin1(s):
     return all(ord(ch) < 256 for ch in s)
 
 
+def clip(s, k=300):
+    """long fields are shown by their ends and their length in samples and replay files"""
+    return s if len(s) <= k else '%s ... (%d characters) ... %s' % (s[:k // 2], len(s), s[-k // 4:])
+
+
 def header_for_model(F):
     """header fields as the writer formats them; characters above 255 are sent as \\xff (both become '?')"""
     out = []
@@ -396,10 +401,15 @@ def opt(x):
     return None if x is None else [Sym('some'), x]
 
 
-def run_formulas(ctx, cnfgen, quick):
+def run_formulas(ctx, cnfgen, quick, formulas=None, stream='formulas'):
+    """formulas: [(label, class, thunk)] or [(label, class, thunk, options)] with options a list of
+    (export_header, export_varnames, to_file) triples; None = the collection of build_formulas, all combinations"""
     CNF = cnfgen.CNF
     cases = []
-    for label, cls, thunk in build_formulas(ctx, cnfgen, quick):
+    corpus = formulas is not None
+    for item in (formulas if corpus else build_formulas(ctx, cnfgen, quick)):
+        label, cls, thunk = item[:3]
+        only = item[3] if len(item) > 3 else None
         try:
             F = thunk()
         except Exception as e:  # the generator itself failed: not this property's business, but recorded
@@ -408,7 +418,8 @@ def run_formulas(ctx, cnfgen, quick):
             continue
         n = F.number_of_variables()
         clauses = [list(c) for c in F]
-        labels = list(F.all_variable_labels()) if n <= 10 ** 6 else None   # 10**30 variables cannot be listed
+        want_names = only is None or any(o[1] for o in only)
+        labels = list(F.all_variable_labels()) if (n <= 10 ** 6 and want_names) else None   # 10**30 variables cannot be listed
         ctx.tally('formula class', cls)
         ctx.tally('clauses', '0' if not clauses else '1-9' if len(clauses) < 10 else '10-999' if len(clauses) < 1000 else '1000+')
         ctx.tally('has empty clause', any(len(c) == 0 for c in clauses))
@@ -422,20 +433,42 @@ def run_formulas(ctx, cnfgen, quick):
                     ctx.tally('skipped', 'names outside latin-1')
                     continue
                 for to_file in ((False, True) if cls != 'large' or (header and names) else (False,)):
+                    if only is not None and (header, names, to_file) not in only:
+                        continue
                     cases.append(dict(label=label, cls=cls, F=F, n=n, clauses=clauses, labels=labels,
                                       header=header, names=names, to_file=to_file))
+    judge_cases(ctx, cnfgen, stream, cases, corpus)
+    if not quick and not corpus:
+        php_100_40(ctx, cnfgen)
+
+
+def header_items(F):
+    return [(str(k), str(v)) for k, v in F.header.items()]
+
+
+def judge_cases(ctx, cnfgen, stream, cases, corpus=True):
+    """cases: dicts with label, cls, F, n, clauses, labels, header, names, to_file.  A case that already carries 'text'
+    (and 'hdr_items', the header at the time of writing) was written by the caller at that moment -- the object may have
+    changed since (history stream); else the formula is written here."""
+    CNF = cnfgen.CNF
     # phase 1: write with the implementation, print with the model
     reqs = []
     for c in cases:
         F = c['F']
-        try:
-            c['text'] = impl_write(F, c['header'], c['names'], c['to_file'])
-            c['wexc'] = None
-        except Exception as e:  # noqa
-            c['text'] = None
-            c['wexc'] = [type(e).__name__, str(e)[:120]]
-        margs = (opt(header_for_model(F) if c['header'] else None), opt(c['labels'] if c['names'] else None), c['n'], c['clauses'])
-        c['broken'] = has_break(F, c['header'], c['names'], c['labels'])
+        if 'text' not in c:
+            c['hdr_items'] = header_items(F)
+            try:
+                c['text'] = impl_write(F, c['header'], c['names'], c['to_file'])
+                c['wexc'] = None
+            except Exception as e:  # noqa
+                c['text'] = None
+                c['wexc'] = [type(e).__name__, str(e)[:120]]
+        c.setdefault('via', 'file' if c['to_file'] else 'StringIO')
+        hdr = [[''.join(ch if ord(ch) < 256 else '\xff' for ch in k), ''.join(ch if ord(ch) < 256 else '\xff' for ch in v)]
+               for k, v in c['hdr_items']]
+        margs = (opt(hdr if c['header'] else None), opt(c['labels'] if c['names'] else None), c['n'], c['clauses'])
+        c['broken'] = bool((c['header'] and any(b in k or b in v for k, v in c['hdr_items'] for b in BREAKS)) or
+                           (c['names'] and any(b in lab for lab in c['labels'] for b in BREAKS)))
         reqs.append(cmd('print_dimacs', *margs))
         if c['broken']:
             reqs.append(cmd('print_dimacs_as_found', *margs))
@@ -452,13 +485,17 @@ def run_formulas(ctx, cnfgen, quick):
             reqs.append(cmd('parse_dimacs', True, c['text']))
     parses = iter(ctx.model.batch(reqs))
     for c, mp in zip(cases, prints):
-        descr = dict(formula=c['label'], n=c['n'], clauses=c['clauses'] if len(c['clauses']) <= 30 else '%d clauses' % len(c['clauses']),
-                     export_header=c['header'], export_varnames=c['names'], via='file' if c['to_file'] else 'StringIO',
-                     header=[[str(k), str(v)] for k, v in c['F'].header.items()] if c['header'] else None,
-                     names=c['labels'][:20] if c['names'] else None)
-        key = (c['label'], c['header'], c['names'], c['to_file'])
-        ctx.count('formulas', key, nontrivial=len(c['clauses']) > 0, sample=dict(descr, clauses='...'))
-        ctx.tally('options', 'header=%s names=%s' % (c['header'], c['names']))
+        descr = dict(formula=c['label'], n=c['n'],
+                     clauses=c['clauses'] if (len(c['clauses']) <= 30 and sum(map(len, c['clauses'])) <= 300) else '%d clauses' % len(c['clauses']),
+                     export_header=c['header'], export_varnames=c['names'], via=c['via'],
+                     header=[[clip(k), clip(v)] for k, v in c['hdr_items'][:40]] if c['header'] else None,
+                     names=[clip(x) for x in c['labels'][:20]] if c['names'] else None)
+        if c.get('history'):
+            descr['history'] = c['history']
+        key = (c['label'], c['header'], c['names'], c['via'])
+        ctx.count(stream, key, nontrivial=len(c['clauses']) > 0, sample=dict(descr, clauses='...'))
+        ctx.tally(stream + ' options' if corpus else 'options', 'header=%s names=%s via=%s' % (c['header'], c['names'], descr['via']) if corpus
+                  else 'header=%s names=%s' % (c['header'], c['names']))
         broken = c['broken']
         ctx.tally('line break in header/name', broken)
         if c['text'] is None:
@@ -522,16 +559,19 @@ def run_formulas(ctx, cnfgen, quick):
                                   dict(input=descr, universal_newlines=bool(u), implementation=g if g != want else 'same formula', model=m),
                                   False, site='parse_dimacs', cls='verdict-on-written')
                     break
-    if not quick:
-        F = cnfgen.PigeonholePrinciple(100, 40)
-        text = F.to_dimacs()
-        cl = [list(c) for c in F]
-        r = ctx.model.batch([cmd('print_dimacs', None, None, F.number_of_variables(), cl), cmd('parse_dimacs', False, text)])
-        ctx.count('formulas', ('php 100 40', False, False, False), True)
-        ctx.tally('formula class', 'huge')
-        if r[0] != text or r[1] != ['ok', F.number_of_variables(), cl] or impl_read(CNF, text, False) != r[1]:
-            ctx.violation('correspondence', 'php 100 40: text or read-back differs from the model',
-                          dict(input=dict(formula='php 100 40')), False, site='to_dimacs_file', cls='text-differs')
+
+
+def php_100_40(ctx, cnfgen):
+    CNF = cnfgen.CNF
+    F = cnfgen.PigeonholePrinciple(100, 40)
+    text = F.to_dimacs()
+    cl = [list(c) for c in F]
+    r = ctx.model.batch([cmd('print_dimacs', None, None, F.number_of_variables(), cl), cmd('parse_dimacs', False, text)])
+    ctx.count('formulas', ('php 100 40', False, False, False), True)
+    ctx.tally('formula class', 'huge')
+    if r[0] != text or r[1] != ['ok', F.number_of_variables(), cl] or impl_read(CNF, text, False) != r[1]:
+        ctx.violation('correspondence', 'php 100 40: text or read-back differs from the model',
+                      dict(input=dict(formula='php 100 40')), False, site='to_dimacs_file', cls='text-differs')
 
 
 # --------------------------------------------------------------------------
@@ -1232,6 +1272,141 @@ def run_cli_write(ctx, cnfgen, quick):
     shutil.rmtree(tmp, ignore_errors=True)
     ctx.note('cli-write: %.0f s choosing instances, %.0f s running %d command lines, %.0f s comparing'
              % (t_sel - t_start, t_run - t_sel, len(runs), time.time() - t_run))
+
+
+
+# --------------------------------------------------------------------------
+# thresholds: every size / index / width / count / length also at the values where a numeric threshold would bite
+# (notes/LARGE_STREAMS.md).  Exact comparison with the model: the outputs stay small at these sizes.
+# --------------------------------------------------------------------------
+THRESHOLDS = [15, 16, 17, 63, 64, 65, 127, 128, 129, 255, 256, 257, 258, 300, 1000, 1025]
+BLOCKS = [4095, 4096, 4097, 8191, 8192, 8193, 32768, 65535, 65536, 65537, 131071, 131072, 131073]
+BIGINTS = [2 ** 15, 2 ** 16, 10 ** 6, 2 ** 31 - 1, 2 ** 31, 2 ** 31 + 1, 2 ** 32, 2 ** 40, 2 ** 53 + 1, 2 ** 63 - 1, 2 ** 63, 2 ** 64, 10 ** 18,
+           10 ** 19]
+QUICK_BLOCKS = [4096, 8192, 8193, 65536, 65537, 131072]
+ALL_OPTS = [(h, nm, f) for h in (False, True) for nm in (False, True) for f in (False, True)]
+NO_NAMES = [(h, False, f) for h in (False, True) for f in (False, True)]
+BOTH_VIA = [(True, True, False), (True, True, True), (False, False, True)]
+
+
+def build_thresholds(ctx, cnfgen, quick):
+    """[(label, class, thunk, options)]"""
+    CNF = cnfgen.CNF
+    out = []
+
+    def add(label, cls, thunk, options):
+        out.append((label, cls, thunk, options))
+        ctx.tally('thresholds kind', cls)
+
+    def with_n(n, clauses):
+        F = CNF()
+        F.update_variable_number(n)
+        for c in clauses:
+            F.add_clause(c)
+        return F
+    # the number of variables / the value of a literal
+    for t in THRESHOLDS + BLOCKS + BIGINTS:
+        add('n = %d, literals +-%d and +-%d' % (t, t, t - 1), 'thr-literal',
+            lambda t=t: with_n(t, [[t, -1], [-t], [t - 1, -t, t], [-(t - 1)], [1]]), NO_NAMES if t > 1025 else ALL_OPTS)
+        add('n = %d, largest literal used %d' % (t + 2, t), 'thr-literal', lambda t=t: with_n(t + 2, [[-t, t], [2, -t]]), [(False, False, False), (True, False, True)])
+    # the width of a clause: repeated and opposite literals far from the start
+    for w in THRESHOLDS + [4096, 30000] + ([] if quick else [8192, 65536, 131073]):
+        def wide(w=w):
+            a = list(range(1, w))                     # w-1 distinct literals ...
+            return CNF([a + [-(w - 1)], [-x for x in a] + [-1], [1, -1] * (w // 2) + [2] * (w % 2), [3]])
+        add('clauses of %d literals (opposite pair at the far end, repeated literals)' % w, 'thr-width', wide, BOTH_VIA if w <= 1025 else [(False, False, True)])
+    # the number of clauses, the position of an empty clause
+    for m in THRESHOLDS + [4096, 8192] + ([] if quick else [65537, 131073]):
+        def many(m=m):
+            F = CNF()
+            F.update_variable_number(7)
+            for i in range(m):
+                F.add_clause([] if i in (m - 1, m // 2) else [1 + i % 7, -(1 + (i * 3) % 7)])
+            return F
+        add('%d clauses (clause %d and the last one empty)' % (m, m // 2 + 1), 'thr-clauses', many, BOTH_VIA if m <= 1025 else [(True, False, True)])
+    # the header: number of fields, length of a value / key / description, number of line breaks in a value
+    for k in THRESHOLDS:
+        def fields(k=k):
+            F = CNF([[1, -2], [2]])
+            for i in range(k - len(F.header)):
+                F.header['field%d' % i] = 'v%d' % i
+            return F
+        add('header with %d fields' % k, 'thr-header-fields', fields, [(True, False, False), (True, True, True)])
+    for t in THRESHOLDS + (QUICK_BLOCKS if quick else BLOCKS) + [100000]:
+        def longval(t=t):
+            F = CNF([[1, -2], [2]], description='d' * t)
+            if t <= 1025 or not quick:
+                F.header['k' * t] = 'v' * (t - 1) + ' '
+            return F
+        add('header field of %d characters' % t, 'thr-header-length', longval,
+            [(True, False, False), (True, False, True)] if t <= 1025 or not quick else [(True, False, t % 2 == 0)])
+    for t in THRESHOLDS + [4096, 65537] + ([] if quick else [8192, 131073]):
+        add('description with %d line breaks' % t, 'thr-header-lines',
+            lambda t=t: CNF([[1, -2], [2]], description='\n'.join('l%d' % i for i in range(t + 1))), [(True, False, True)] if t > 1025 else [(True, False, False), (True, False, True)])
+    # variable names: length of a name, number of names
+    for t in THRESHOLDS + (QUICK_BLOCKS if quick else BLOCKS) + [70000]:
+        def longname(t=t):
+            F = CNF()
+            F.new_variable('y')
+            F.new_variable('n' * t)
+            if t <= 1025 or not quick:
+                F.new_variable('z' * (t - 2) + ' 0')
+            F.add_clause([1, -2])
+            return F
+        add('variable name of %d characters' % t, 'thr-name-length', longname,
+            [(False, True, False), (True, True, True)] if t <= 1025 or not quick else [(False, True, t % 2 == 0)])
+    for t in THRESHOLDS + [4096, 8192] + ([] if quick else [65537, 131073]):
+        def manynames(t=t):
+            F = CNF()
+            F.new_block(t - 2, label='b_{}')
+            F.new_variable('last but one')
+            F.update_variable_number(t)
+            F.add_clause([t, -(t - 1), 1])
+            return F
+        add('%d variables with names' % t, 'thr-name-count', manynames, [(False, True, False), (True, True, True)] if t <= 1025 else [(False, True, True)])
+    return out
+
+
+def threshold_texts(rng, quick):
+    """[(text, kind)] -- reader inputs at the threshold sizes"""
+    out = []
+    for t in THRESHOLDS + [4096] + ([] if quick else [8192, 65537]):
+        lits = [(-1) ** i * (1 + i % t) for i in range(t)]
+        body = ' '.join(map(str, lits))
+        out.append(('p cnf %d 1\n%s 0\n' % (t, body), 'one clause of t literals on one line'))
+        out.append(('p cnf %d 1\n%s\n0\n' % (t, '\n'.join(map(str, lits))), 'one clause spread over t lines'))
+        out.append(('p cnf %d %d\n%s' % (t, t, ''.join('%d 0\n' % l for l in lits)), 't unit clauses'))
+        out.append(('p cnf %d %d\n%s' % (t, t, ' '.join('%d 0' % l for l in lits)), 't unit clauses on one line, no final newline'))
+        out.append(('p cnf %d %d\n%s' % (t, t - 1, ''.join('%d 0\n' % l for l in lits)), 't clauses, t-1 declared'))
+        out.append(('p cnf %d %d\n%s' % (t, t + 1, ''.join('%d 0\n' % l for l in lits)), 't clauses, t+1 declared'))
+        out.append(('p cnf %d 2\n%d 0\n%d 0\n' % (t, t, -t), 'literal n = t'))
+        out.append(('p cnf %d 2\n%d 0\n%d 0\n' % (t, t, t + 1), 'literal n+1 with n = t'))
+        out.append(('p cnf %d 2\n%d 0\n%d 0\n' % (t, 1, -(t + 1)), 'literal -(n+1) with n = t'))
+        out.append(('p cnf %d 1\n%s%d 0\n' % (t, '\n' * t, t), 't blank lines'))
+        out.append(('%sp cnf %d 1\n%d 0\n' % ('c x\n' * t, t, t), 't comment lines'))
+        out.append(('p cnf 3 1\n%sx 0\n' % ('1 0\n' * (t - 2)), 'bad literal at line t'))
+        out.append(('c\n' * (t - 1) + '1 0\np cnf 1 1\n', 'data before the problem line at line t'))
+        out.append(('p cnf 1 0\n' + 'c\n' * (t - 2) + 'p cnf 1 0\n', 'second problem line at line t'))
+        out.append(('c\n' * (t - 1) + 'p cnf 1\n', 'bad problem line at line t'))
+        out.append(('p cnf 5 1\n1%s-2%s0\n' % (' ' * t, '\t' * t), 'runs of t blanks'))
+        out.append(('p cnf 5 1\n%s1 %s2 0%s\n' % (' ' * t, '0' * t, ' ' * t), 't leading zeros, line padded with t blanks'))
+        out.append(('p cnf %s%d 1\n-%s3 0\n' % ('0' * t, 5, '0' * (t - 1)), 't leading zeros in the problem line'))
+        out.append(('p cnf %d 1\n%s 0' % (t, ' '.join(str(t) for _ in range(t))), 'literal t repeated t times'))
+    for t in BIGINTS:
+        out.append(('p cnf %d 2\n%d -%d 0\n-%d 0\n' % (t, t, t, t - 1), 'n = literal = big'))
+        out.append(('p cnf %d 1\n%d 0\n' % (t, t + 1), 'literal n+1, big'))
+        out.append(('p cnf 1 %d\n1 0\n' % t, 'declared clause count big'))
+    return out
+
+
+def run_thresholds(ctx, cnfgen, quick):
+    t0 = time.time()
+    run_formulas(ctx, cnfgen, quick, formulas=build_thresholds(ctx, cnfgen, quick), stream='thresholds')
+    items = threshold_texts(ctx.rng, quick)
+    for _t, kind in items:
+        ctx.tally('thresholds text kind', kind)
+    compare_texts(ctx, cnfgen.CNF, 'thresholds-texts', items)
+    ctx.note('thresholds: %.0f s' % (time.time() - t0))
 
 
 def run(ctx):
